@@ -201,6 +201,10 @@ class Net:
         t = FakeTransport(loop, proto, self, len(self.conns))
         self.conns.append(t)
         self.ev("opened", t.cid)
+        if getattr(self, "fail_first_write", False):
+            # the next connection accepts but its first write hits a fatal socket error (peer already gone)
+            t.fail_writes = True
+            self.ev("envFailWrites", t.cid, 1)
         proto.connection_made(t)
         return t, proto
 
